@@ -558,6 +558,9 @@ def _dict(eng, a, kw, st, fr, k, node):
         return k(dict(kw), st)
     if len(a) == 1 and isinstance(a[0], Opq) and not kw:
         return k(Opq(z3.Function("fn:dict", V, V)(a[0].t)), st)
+    if len(a) == 1 and isinstance(a[0], dict):
+        # dict(d) of a literal dict held by value: a (shallow) copy, later stores go to the copy only
+        return k({**a[0], **kw}, st)
     raise Unsupported("dict(x)")
 
 
